@@ -476,12 +476,21 @@ def r06_4(rep: Report) -> None:
     seen = set()
     for env, path in outs:
         start, end_, sdur = env.get(S), env.get(E), env.get('seg.duration')
-        if start == {'T': 1}:
-            label = 'tfdt'
-        elif start is not None and 'E0' in start:
-            label = 'no tfdt'
-        else:
-            continue
+        # which kind of fragment the path is about: by the test for the tfdt box it went through, else by
+        # the value the start was given
+        label = None
+        for lab, truth in path:
+            if 'tfdt' in lab and lab.endswith(' is None'):
+                label = 'no tfdt' if truth else 'tfdt'
+            elif 'tfdt' in lab and lab.endswith(' is not None'):
+                label = 'tfdt' if truth else 'no tfdt'
+        if label is None:
+            if start == {'T': 1}:
+                label = 'tfdt'
+            elif start is not None and 'E0' in start:
+                label = 'no tfdt'
+            else:
+                continue
         no_tfdt = label == 'no tfdt'
         if label in seen:
             continue
@@ -503,6 +512,122 @@ def r06_4(rep: Report) -> None:
                          'no longer describe the stored fragments', branch)
     if seen != {'no tfdt', 'tfdt'}:
         raise AnalysisError(f'Representation.load: tfdt / no-tfdt paths not both found ({sorted(seen)})')
+
+
+def r06_12(rep: Report) -> None:
+    """the stored media duration is the sum of the durations of the media fragments - `segments[1:]`, the init
+    segment excluded - wherever Representation computes it (the indexer, and the constructor when the stored
+    index has none).  A duration taken from decode times (`start of the last fragment + its duration`) is only
+    the same number for a file that starts at decode time 0 without gaps.  The statements of the block that
+    assigns `.mediaDuration` are evaluated over linear forms; a summing loop / sum() over `segments[1:]` is the
+    symbol D, any other sub-expression is a symbol of its own text."""
+    rid = 'R06.12'
+    tree = rep.repo.tree(REP)
+    cls = need(find_class(tree, 'Representation'), 'Representation')
+    DSUM = 'sum(duration of segments[1:])'
+
+    def seg_slice(e: ast.AST) -> bool:
+        return isinstance(e, ast.Subscript) and isinstance(e.value, ast.Attribute) and e.value.attr == 'segments' \
+            and isinstance(e.slice, ast.Slice) and e.slice.upper is None and e.slice.step is None \
+            and isinstance(e.slice.lower, ast.Constant) and e.slice.lower.value == 1
+
+    def lin(e: ast.AST, env: dict) -> dict:
+        if isinstance(e, ast.Call) and norm(e.func) == 'sum' and len(e.args) == 1 \
+                and isinstance(e.args[0], (ast.GeneratorExp, ast.ListComp)):
+            g = e.args[0]
+            if len(g.generators) == 1 and not g.generators[0].ifs and seg_slice(_through(g.generators[0].iter, env)) \
+                    and norm(g.elt) == f'{norm(g.generators[0].target)}.duration':
+                return {DSUM: 1}
+            it_ = _through(g.generators[0].iter, env)
+            if len(g.generators) == 1 and norm(g.elt) == f'{norm(g.generators[0].target)}.duration' \
+                    and 'segments' in norm(it_) and not any(isinstance(x, ast.Call) for x in ast.walk(it_)):
+                return {f'durations of {norm(it_)}' + (' (filtered)' if g.generators[0].ifs else '').replace('(', '<').replace(')', '>'): 1}
+        if isinstance(e, ast.Constant) and isinstance(e.value, int) and not isinstance(e.value, bool):
+            return {'1': e.value} if e.value else {}
+        t = norm(e)
+        if t in env:
+            return dict(env[t])
+        if isinstance(e, ast.BinOp) and isinstance(e.op, (ast.Add, ast.Sub)):
+            a, b = lin(e.left, env), lin(e.right, env)
+            sg = 1 if isinstance(e.op, ast.Add) else -1
+            out = dict(a)
+            for k, v in b.items():
+                out[k] = out.get(k, 0) + sg * v
+            return {k: v for k, v in out.items() if v}
+        return {t: 1}
+
+    def _through(e: ast.AST, env: dict) -> ast.AST:
+        """a local that names the slice: earlier = x.segments[1:]"""
+        if isinstance(e, ast.Name) and ('@' + e.id) in env:
+            return env['@' + e.id]
+        return e
+
+    def run(stmts: list[ast.stmt], env: dict) -> None:
+        for st in stmts:
+            if isinstance(st, ast.Assign) and len(st.targets) == 1:
+                if isinstance(st.targets[0], ast.Name) and seg_slice(st.value):
+                    env['@' + st.targets[0].id] = st.value
+                env[norm(st.targets[0])] = lin(st.value, env)
+            elif isinstance(st, ast.AnnAssign) and st.value is not None:
+                env[norm(st.target)] = lin(st.value, env)
+            elif isinstance(st, ast.AugAssign) and isinstance(st.op, (ast.Add, ast.Sub)):
+                cur = env.get(norm(st.target), {norm(st.target): 1})
+                add = lin(st.value, env)
+                sg = 1 if isinstance(st.op, ast.Add) else -1
+                out = dict(cur)
+                for k, v in add.items():
+                    out[k] = out.get(k, 0) + sg * v
+                env[norm(st.target)] = {k: v for k, v in out.items() if v}
+            elif isinstance(st, ast.For) and seg_slice(_through(st.iter, env)) and not st.orelse:
+                tv = norm(st.target)
+                for b_ in st.body:
+                    if isinstance(b_, ast.AugAssign) and isinstance(b_.op, ast.Add) and norm(b_.value) == f'{tv}.duration':
+                        cur = env.get(norm(b_.target), {norm(b_.target): 1})
+                        env[norm(b_.target)] = {k: v for k, v in {**cur, DSUM: cur.get(DSUM, 0) + 1}.items() if v}
+                    else:
+                        for x in ast.walk(b_):
+                            if isinstance(x, (ast.Assign, ast.AugAssign, ast.AnnAssign)):
+                                for t_ in (x.targets if isinstance(x, ast.Assign) else [x.target]):
+                                    env[norm(t_)] = {f'?{norm(t_)}': 1}
+            else:
+                for x in ast.walk(st):
+                    if isinstance(x, (ast.Assign, ast.AugAssign, ast.AnnAssign)):
+                        for t_ in (x.targets if isinstance(x, ast.Assign) else [x.target]):
+                            env[norm(t_)] = {f'?{norm(t_)}': 1}
+
+    def blocks(node: ast.AST):
+        for n in ast.walk(node):
+            for f_ in ('body', 'orelse', 'finalbody'):
+                blk = getattr(n, f_, None)
+                if isinstance(blk, list) and blk and isinstance(blk[0], ast.stmt):
+                    yield blk
+    sites = 0
+    for fn in [m for m in cls.body if isinstance(m, ast.FunctionDef)]:
+        fn = find_func(cls, fn.name) or fn
+        for blk in blocks(fn):
+            tgts = [st for st in blk if isinstance(st, (ast.Assign, ast.AugAssign))
+                    and any(isinstance(t_, ast.Attribute) and t_.attr == 'mediaDuration'
+                            for t_ in (st.targets if isinstance(st, ast.Assign) else [st.target]))]
+            if not tgts:
+                continue
+            tname = norm(tgts[0].targets[0] if isinstance(tgts[0], ast.Assign) else tgts[0].target)
+            env: dict = {}
+            run(blk, env)
+            got = env.get(tname)
+            sites += 1
+            construct = f'{REP}::Representation.{fn.name}'
+            if got == {DSUM: 1}:
+                rep.ok(rid, construct, 'mediaDuration', 'sum of the durations of segments[1:]')
+            elif got is not None and any('(' in k and k != DSUM for k in got):
+                raise AnalysisError(f'Representation.{fn.name}: mediaDuration = {_fmt(got)[:120]} - a form this rule does not follow')
+            else:
+                rep.fail(rid, construct, 'mediaDuration',
+                         f'the stored media duration is `{_fmt(got)[:140]}`; it must be the sum of the durations of the '
+                         'media fragments (segments[1:]): decode times say where fragments lie, not how much media there '
+                         'is - a file whose first fragment does not start at 0, or with gaps, gets a duration (and a '
+                         'static SegmentTimeline, bitrate and presentation duration) that is too long', tgts[0])
+    if sites < 2:
+        raise AnalysisError(f'Representation: only {sites} place(s) compute mediaDuration (constructor and indexer expected)')
 
 
 def _lin2(e: ast.AST, env: dict) -> dict:
@@ -1009,6 +1134,7 @@ def analyse(rep: Report) -> None:
     rep.rule('R06.9', 'static requests are not mapped through a lookup that wraps at the end of the media', floor=2)
     rep.rule('R06.10', 'a synthesised tfdt is the sum of the durations of the fragments before the requested one', floor=1)
     rep.rule('R06.11', 'an S run is extended only when the listed duration equals the duration of the run', floor=1)
+    rep.rule('R06.12', 'the stored media duration is the sum of the durations of the media fragments', floor=2)
     r06_1(rep)
     r06_2(rep)
     r06_3(rep)
@@ -1020,3 +1146,4 @@ def analyse(rep: Report) -> None:
     r06_9(rep)
     r06_10(rep)
     r06_11(rep)
+    r06_12(rep)
